@@ -4,6 +4,19 @@ NOTES = ("Every check re-checks the Coq theorems of coq/Props/<id>.v (full .vo b
          "See DESIGN.md for the trusted base and known_findings.json for recorded defects.")
 NOT_APPLICABLE = {}
 CLAIMED = {
+ "C17": {
+  "text": "Partial. Proved on the model of CommandStatement.rearrange/split/valueFromCommandText: true/false are "
+          "booleans, exactly the words of the shape -?[0-9]+(\\.[0-9]+)? are numbers, every other word is a string; words "
+          "written with any non-empty whitespace between them (and any around) are recovered exactly and in order "
+          "(fields_join), token boundaries inside the text are irrelevant, inline expressions stay in place; a "
+          "registered handler runs once with the evaluated arguments, stop is never dispatched, an unregistered name "
+          "is an error. Not proved: that the generated lexer delivers a generic command as COMMAND_TEXT tokens "
+          "(keyword-prefixed names included) - observed by the correspondence family; known finding D20.",
+  "design_ref": "DESIGN.md section 5, C17",
+  "note": "strconv.ParseFloat on decimal literals is the correctly rounded rational model of Num/Decimal.v; "
+          "strings.Fields splits on unicode.IsSpace.",
+  "technique": "Coq proof of word splitting/classification + differential correspondence check on raw command text",
+ },
  "C09": {
   "text": "Partial. Proved: rand.Intn over any raw stream is in [0,n); dice(n) is an integer in [1,n] for every n >= 1, "
           "random_range(a,b) an integer in [a,b] for every a <= b whose width fits an int, wider or empty ranges are "
